@@ -34,7 +34,8 @@ func tomlMarshalStream(vs []any) ([]byte, error) {
 	return buf.Bytes(), nil
 }
 
-var tomlRE = regexp.MustCompile(`(?m)^(\+\+\+|---)$`)
+// The separator line may end in CRLF.
+var tomlRE = regexp.MustCompile(`(?m)^(\+\+\+|---)\r?$`)
 
 func tomlUnmarshalStream(in []byte) ([]any, error) {
 	parts := tomlRE.Split(string(in), -1)
